@@ -60,14 +60,15 @@ def analyse(ck, mode, optical, radio, staged, output_file="OUT.fits"):
 
         def in_sync():
             fs = ghost_fs(done)
-            f = fs.get(output_file)
+            okey = os.fspath(output_file) if isinstance(output_file, os.PathLike) else output_file
+            f = fs.get(okey)
             if f is None:
                 return "the output file %r does not exist%s" % (output_file, "; written instead: %s" % sorted(fs) if fs else "")
             if f[0] != tuple(sorted(cols)) or not set(meta) <= set(f[1]):
                 return "the output file holds columns %s, the table %s" % (list(f[0]), sorted(cols))
             if f[2] != want_kw:
                 return "the output file was written with %s" % (dict(f[2]),)
-            extra = [k for k in fs if k != output_file]
+            extra = [k for k in fs if k != okey]
             if extra:
                 return "other files are left behind: %s" % extra
             return None
